@@ -26,9 +26,17 @@ ENV = dict(os.environ, CARGO_NET_OFFLINE="true")
 
 
 def sh(cmd, cwd=None, timeout=None, stdin=None):
-    p = subprocess.run(cmd, cwd=cwd, env=ENV, stdin=stdin, stdout=subprocess.PIPE, stderr=subprocess.STDOUT,
-                       text=True, timeout=timeout)
+    try:
+        p = subprocess.run(cmd, cwd=cwd, env=ENV, stdin=stdin, stdout=subprocess.PIPE, stderr=subprocess.STDOUT,
+                           text=True, timeout=timeout)
+    except subprocess.TimeoutExpired as e:
+        # a command that does not come back (the real code hangs under the harness) is reported like a crash
+        out = e.stdout if isinstance(e.stdout, str) else (e.stdout or b"").decode("utf-8", "replace")
+        return 124, out + f"\nTIMEOUT after {timeout}s: {' '.join(map(str, cmd))}\n"
     return p.returncode, p.stdout
+
+
+REPLAY_HANGS = []   # (domain, lines) of replays that did not come back
 
 
 class Lock:
@@ -177,8 +185,11 @@ def harness_replay(domain, lines):
     path = f"{BUILD}/run/replay-{os.getpid()}.trace"
     with open(path, "w") as f:
         f.write("\n".join(lines) + "\n")
-    rc, out = sh([HARNESS, domain, f"replay={path}"], timeout=600)
+    rc, out = sh([HARNESS, domain, f"replay={path}"], timeout=300)
     os.unlink(path)
+    if rc == 124:
+        REPLAY_HANGS.append((domain, lines))
+        return ""
     return out
 
 
@@ -332,6 +343,8 @@ def main():
                 text = "\n".join(l for l in open(corpus_file).read().splitlines() if not l.startswith("#"))
                 cdom = domain_of(text.splitlines())
                 out = text + "\n" if cdom in NOT_REPLAYABLE else harness_replay(cdom, text.splitlines())
+                if not split_traces(out):
+                    crashes.append((name, cdom, [HARNESS, cdom, "replay=" + corpus_file], 124, "the replay of this corpus trace on the real code produced no trace (crash or hang)"))
             else:
                 rc, out = sh([HARNESS, cdom, f"seed={seed}"] + args, timeout=7200)
                 if rc != 0:
